@@ -8,6 +8,7 @@ import (
 	"crypto/sha256"
 	"encoding/binary"
 	"fmt"
+	"strings"
 	"time"
 
 	"filippo.io/mldsa"
@@ -1249,6 +1250,28 @@ func FamilyMore(r *Runner) {
 				return nil
 			})
 		}
+	}
+
+	// Log names at and beyond the length the cosigner supports: either the log
+	// cannot be created, or everything it signs is fully signed.
+	for _, n := range []int{200, 255, 256, 300} {
+		r.Scenario(fmt.Sprintf("longname/%d", n), false, func(w *World) error {
+			w.Name = "example.com/" + strings.Repeat("n", n-12)
+			a := w.NewInc("A")
+			if err := a.Create(); err != nil {
+				return nil
+			}
+			if err := a.Load(allFlags); err != nil {
+				return nil
+			}
+			s1 := a.Submit(w.SynthEntry("ln", false, "X"), false)
+			w.Settle()
+			a.Round()
+			w.Settle()
+			a.Round()
+			w.Check("allDone", s1)
+			return nil
+		})
 	}
 
 	// Two submitters of different entries share a not-yet-seen issuer; the
